@@ -60,6 +60,13 @@ def strip_env(env: dict, auth: list, gpg: bool) -> dict:
 
 def payload(rng, stats=None):
     r = rng.random()
+    if r < 0.04:
+        # a payload whose canonical bytes end exactly on a buffer / hash-block / length-field boundary
+        n = rng.choice([x for x in gen.sizes_of_interest() if x <= 70000])
+        if stats is not None:
+            stats["sized-payload"] = stats.get("sized-payload", 0) + 1
+        return gen.sized_payload(n)
+    r = rng.random()
     if r < 0.5:
         return gen.rand_json(rng, depth=3, budget=[rng.choice([1, 6, 25])], stats=stats)
     if r < 0.8:
